@@ -370,6 +370,9 @@ type fcore struct {
 	OnOp        func()
 	CrashBefore bool
 	ShortReads  bool
+	// HonourCtx: SaveOffset / LoadOffset refuse a context that is already dead, as a database driver does.
+	// Not a fault: the caller chose the context.
+	HonourCtx bool
 	// ReadFailsWithEOF: injected read failures wrap io.EOF
 	ReadFailsWithEOF bool
 	// InnerAppendErrs: errors the real store returned for appends that no fault of the plan touched and whose
@@ -529,6 +532,11 @@ func (f *fcore) SaveOffset(ctx context.Context, id string, off eventbus.Offset) 
 	if simrt.Dead() {
 		return errDeadProcess
 	}
+	if f.HonourCtx && ctx.Err() != nil {
+		f.fire("offset-op-with-dead-context")
+		f.opAfter()
+		return ctx.Err()
+	}
 	k := f.next("save")
 	if has(f.plan.FailSave, k) {
 		f.fire("save-fails")
@@ -555,6 +563,11 @@ func (f *fcore) LoadOffset(ctx context.Context, id string) (eventbus.Offset, err
 	}
 	if f.OnLoad != nil {
 		f.OnLoad(id)
+	}
+	if f.HonourCtx && ctx.Err() != nil {
+		f.fire("offset-op-with-dead-context")
+		f.opAfter()
+		return eventbus.OffsetOldest, ctx.Err()
 	}
 	k := f.next("load")
 	if has(f.plan.FailLoad, k) {
